@@ -14,7 +14,7 @@ EXPLANATION = (
     "the API handler doc_drop evaluated: the store actor's drop_replica is reached for the requested document and success "
     'is reported only if it succeeded. The protect callback continues only when the list of hashes was received to its '
     'explicit end marker: a channel that merely closes (the task was aborted with the engine) aborts the collection run. '
-    'NOT decided: byte-for-byte equality of neighbouring documents (redb trusted).'
+    '(R7) the store actor drop handler evaluated against the handle count (shared with C14.R6): a drop refused because other handles hold the document leaves their handles alone. NOT decided: byte-for-byte equality of neighbouring documents (redb trusted).'
 )
 ASSUMPTIONS = ["redb tables are identified by their key/value types", "redb range semantics trusted"]
 
@@ -575,6 +575,24 @@ def r6(ctx):
     ctx.floor("C16.R6", 2)
 
 
+def r7(ctx):
+    """"refused while it is open", through the store actor: a drop request for a document that other handles keep open is
+    refused *and leaves it open for them* - a refused drop that releases a handle lets a repeated drop erase the document
+    under its remaining holder (the drop handler evaluated against the handle count, shared with C14.R6)"""
+    from . import C14
+    sub = type(ctx)(ctx.prop, ctx.tier, ctx.facts, ctx.cfg)
+    C14.r6(sub)
+    for o in sub.obligations:
+        o = dict(o)
+        o["key"] = o["key"].replace("C14.R6", "C16.R7")
+        o["rule"] = "C16.R7"
+        ctx.obligations.append(o)
+        if o["status"] != "holds":
+            ctx.violations.append(o)
+    ctx.analysed_bodies |= sub.analysed_bodies
+    ctx.floor("C16.R7", 4)
+
+
 def run(ctx):
     ctx.run_rule("C16.R1", r1)
     ctx.run_rule("C16.R2", r2)
@@ -582,3 +600,4 @@ def run(ctx):
     ctx.run_rule("C16.R4", r4)
     ctx.run_rule("C16.R5", r5)
     ctx.run_rule("C16.R6", r6)
+    ctx.run_rule("C16.R7", r7)
